@@ -4,6 +4,7 @@ import os, re, subprocess
 TIE_MODULE = T + "Ties"
 TIE_THEOREMS = ["C03_tie_signedarea", "C03_tie_op_area", "C03_tie_Centroid_core", "C03_tie_op_Centroid_core", "C03_tie_op_Centroid",
                 "C03_tie_op_Area_Polygon", "C03_tie_op_Area_MultiPolygon", "C03_tie_op_Length_LineString", "C03_tie_op_Length_MultiLineString",
+                "C03_tie_op_Area_GeometryCollection", "C03_tie_op_Area_Geom", "C03_tie_op_Length_GeometryCollection", "C03_tie_op_Length_Geom",
                 "C03_tie_similar", "C03_tie_pointSimilar", "C03_tie_pointsSimilar", "C03_tie_area", "C03_tie_Polygon_Area", "C03_tie_ringBounds", "C03_tie_MultiPolygon_Area",
                 "C03_tie_MultiPolygon_Centroid_core", "C03_tie_centroidAxisScale", "C03_tie_centroidScale", "C03_tie_scaled",
                 "C03_tie_Centroid_scaled", "C03_tie_MultiPolygon_Centroid_scaled", "C03_tie_op_Centroid_scaled",
@@ -52,7 +53,7 @@ def pregen(check):
 
 CFG = {
     "id": "C03",
-    "lean_modules": ["GeomV.C03.Proofs", "GeomV.C03.ProofsScale", "GeomV.C03.ProofsTranslate", "GeomV.C03.ProofsMScale", "GeomV.C03.ProofsTouch", "GeomV.C03.ProofsOrder", "GeomV.C03.ProofsSpecScale", "GeomV.C03.ProofsOpArea", "GeomV.C03.ProofsBBox", "GeomV.C03.ProofsAffine", "GeomV.C03.ProofsJudge", "GeomV.C03.ProofsOp", "GeomV.C03.ProofsMTranslate"],
+    "lean_modules": ["GeomV.C03.Proofs", "GeomV.C03.ProofsScale", "GeomV.C03.ProofsTranslate", "GeomV.C03.ProofsMScale", "GeomV.C03.ProofsTouch", "GeomV.C03.ProofsOrder", "GeomV.C03.ProofsSpecScale", "GeomV.C03.ProofsOpArea", "GeomV.C03.ProofsBBox", "GeomV.C03.ProofsAffine", "GeomV.C03.ProofsJudge", "GeomV.C03.ProofsOp", "GeomV.C03.ProofsMTranslate", "GeomV.C03.ProofsClosed", "GeomV.C03.ProofsGC"],
     "exe": "geomv_c03",
     "go_cmd": "c03",
     "stages": ["go:gen", "go:impl", "lean:judge"],
@@ -71,6 +72,8 @@ CFG = {
         "op_centroid_unclosed_not_equivariant", "centOrigin_translate", "C03_centroid_valid_now", "op_agrees_centroid_now",
         "pip_translate", "ringArea_translate", "C03_area_translate", "multiPolygonCentroidCore_translate", "C03_mcentroid_origin_guard",
         "C03_centroid_valid_anyorder_now", "C03_mcentroid_anyorder_now",
+        "closeIfOpen_ap", "C03_allClosed_of_spelling", "C03_allClosed_of_spelling_multi", "C03_mcentroid_now", "C03_opCentroid_now",
+        "C03_opArea_leaves", "C03_opArea_collection", "C03_opArea_geom", "C03_opLength_leaves", "C03_opLength_geom",
         "pip_scale", "ringArea_scale", "C03_area_scale", "multiPolygonCentroidCore_scale", "C03_mcentroid_guard", "C03_mcentroid_guarded_all",
         "C03_area_touch", "C03_marea_touch", "C03_mcentroid_touch", "C03_mcentroid_touch_guarded", "C03_centroid_valid_touch",
         "C03_area_order", "C03_area_anyorder", "C03_area_holefirst", "C03_mcentroid_anyorder", "C03_centroid_order", "C03_centroid_valid_anyorder",
@@ -97,7 +100,7 @@ CFG = {
             "validated exactly) under per-ring reversal x rotation {0,1,mid,last} x closed/unclosed orbits (full orbit for <=2 rings, systematic+sampled above), "
             "their images under random invertible affine maps to arbitrary doubles, multipolygons of 1-4 disjoint members (+ island in a hole), "
             "every base also at dyadic scales 2^-14..2^-30 and 2^+20, areas at 2^±400/±500, centroids at 2^±300 (rescaled branch of fix 4edcec2) and four corpus shapes at 2^±400/±600; polygons far from the origin relative to their size (every second base translated by 2^20..2^40, k·2^18..2^36, 1e5..1e9 whole and fractional, either sign, per axis, one axis possibly near; nine corpus offsets up to 1e12; two far members; closed, mixed and unclosed spellings): class suffix -offset:far, the centroid tolerance is 1e-9 of the EXTENT of the polygon on each axis (+ 8 ulp of the largest |coordinate|), never more than the former 1e-9·max|coordinate|; ring order permuted (hole first) judged by the Spec; polygons whose rings touch in single points (hole vertex on a side of a rectangle / on the extreme vertex of a diamond / on a slanted edge, two holes touching, a shell touched in every vertex) judged by Spec.ValidPolyT under full or sampled orbits; query points interpolated on segment interiors and pushed off by 0, 1e-12 .. 1e-3 of the segment length with non-dyadic coordinates k/10, k/7, k/3 and random floats (distance tolerance 1e-9 d + 1e-12 max|coordinate|); line strings, query points and buffers also at 2^±511..2^±900; receivers laid out as separate allocations, as windows of one packed buffer, or as prefix re-slices (receiver compared bit for bit before/after every call); a fixed corpus of degenerate/invalid shapes; line strings with query points on vertices, on segments, projecting onto endpoints, beyond ends; "
-            "buffers with 3..720 segments and invalid arguments; anisotropic magnitudes (x and y multiplied by different powers of two, 2^0/2^±600, 2^±350/2^∓350, ...: the per-axis range guard of the centroids, class suffix -aniso; centroid tolerances relative to the largest |coordinate| on each axis); op.FixOrientation / op.Within lines (opfix, opwithin, opfixwithin: all four winding combinations, hole-first orders, nested islands, unclosed/empty/short rings, nil and unsupported types, probes on vertices / edge middles / level with a vertex / inside holes, scales 2^-14..2^20 and corpus shapes down to 2^-40). distinct = distinct input line; non-trivial = verdict class not '*-skipped'",
+            "buffers with 3..720 segments and invalid arguments; anisotropic magnitudes (x and y multiplied by different powers of two, 2^0/2^±600, 2^±350/2^∓350, ...: the per-axis range guard of the centroids, class suffix -aniso; centroid tolerances relative to the largest |coordinate| on each axis); op.FixOrientation / op.Within lines (opfix, opwithin, opfixwithin: all four winding combinations, hole-first orders, nested islands, unclosed/empty/short rings, nil and unsupported types, probes on vertices / edge middles / level with a vertex / inside holes, scales 2^-14..2^20 and corpus shapes down to 2^-40); opgc lines: op.Area and op.Length on arbitrary geometries — GeometryCollections nested up to depth 3 of alternately wound valid polygons (either common direction, any start vertex, closed or unclosed), multi-polygons, integer line strings (0..7 and 60..70 points), multi-line-strings, points, multi-points, bounds, nil, empty collections/rings, also at dyadic scales; judged by the Spec (sum of the segment lengths of all line strings / sum of shells minus holes of all polygons in the geometry) and against opAreaGeom/opLengthGeom. distinct = distinct input line; non-trivial = verdict class not '*-skipped'",
     "timeout": {"quick": 900, "thorough": 3000},
 }
 
@@ -107,12 +110,12 @@ CFG["theorems"] += [T + n for n in TIE_THEOREMS]
 CFG["pregen"] = pregen
 CFG["trusted_base"].append(
     "T1: harness/cmd/c03/extract.go (go/ast, translation table in its header) regenerates lean/GeomV/C03/Gen.lean from area.go (signedarea, area, Polygon.Area, Polygon.ringBounds, centroidAxisScale, centroidScale, Polygon.scaled, centroidAxisOrigin, centroidOrigin, Polygon.translated, Polygon.Centroid with its origin guard and its range guard), "
-    "multipolygon.go (Area, Centroid with its origin guard and its range guard), op/properties.go (area, length, centroidAxisOrigin, centroidOrigin, the Polygon case of Centroid with its inline origin guard and range guard, the Polygon / MultiPolygon cases of Area, the LineString / MultiLineString cases of Length), bounds.go (Area, Centroid), linestring.go / multilinestring.go (Length, Distance), "
+    "multipolygon.go (Area, Centroid with its origin guard and its range guard), op/properties.go (area, length, centroidAxisOrigin, centroidOrigin, the Polygon case of Centroid with its inline origin guard and range guard, the Polygon / MultiPolygon / GeometryCollection cases of Area, the LineString / MultiLineString / GeometryCollection cases of Length), bounds.go (Area, Centroid), linestring.go / multilinestring.go (Length, Distance), "
     "simplify.go (pointSubtract, dot, norm, d, distPointToSegment), similar.go (similar, pointSimilar, pointsSimilar), point.go (Buffer) of the tree under test on every run, in a faulting monad (index, index assignment, slice, make, integer %, nil box, panic are partial: GenLib.lean; loops with return/continue keep their control flow); "
     "Ties.lean proves that each regenerated function returns the model's value (areas, lengths, distances, MultiPolygon/op centroids: WITHOUT FAULT for every input; Polygon.Centroid, Point.Buffer: fault for fault; area: for the boxes of the rings of p and i < len(p); scaled: for non-zero factors). "
     "Recognised statement groups, refused (exit 3, tie broken) when their text changes: the accumulator group `cx /= 6*d; cy /= 6*d; A += w; xA += cx*w; yA += cy*w` / `var A, xA, yA float64` / `return Point{xA/A, yA/A}` = CAcc.add / CAcc.zero / CAcc.finish (float division by zero); "
     "the body of centroidAxisScale and the two inline axis-scale blocks of op.Centroid (compared as text) = axisScale (Frexp/Ldexp over Rat = pow2Floor); `return Point{X: c.X * kx, Y: c.Y * ky}` in a centroid range guard = unscale; `return Point{X: c.X + ox, Y: c.Y + oy}` in a centroid origin guard = unshift; the body of centroidAxisOrigin (compared as text; a Rat is finite) = the identity; the guard of distPointToSegment (`if m := E; (m >= 0x1p500 || (m <= 0x1p-500 && m > 0)) && !math.IsInf(m, 0) { _, e := math.Frexp(m); k := math.Ldexp(1, e-1); return k * distPointToSegment(...) }`, compared as text) = `match RNum.rescale E`; "
-    "a function's call of itself inside its range guard (Polygon.Centroid, MultiPolygon.Centroid, op.Centroid, distPointToSegment on the rescaled copy) is read as the code below the guard, inside the origin guard of the centroids (on the translated copy) as the code below that guard (range guard + loops; centOrigin_translate: the first vertex of the translated copy is the origin); a type switch on g geom.Geom is regenerated per listed case (the statements around the switch with the case's body in its place; a call f(x) with x of static type T is case T); "
+    "a function's call of itself inside its range guard (Polygon.Centroid, MultiPolygon.Centroid, op.Centroid, distPointToSegment on the rescaled copy) is read as the code below the guard, inside the origin guard of the centroids (on the translated copy) as the code below that guard (range guard + loops; centOrigin_translate: the first vertex of the translated copy is the origin); a type switch on g geom.Geom is regenerated per listed case (the statements around the switch with the case's body in its place; a call f(x) with x of static type T is case T; in the GeometryCollection case the function's call of itself on a member — static type geom.Geom, dynamic type unknown — is the parameter `self` of the regenerated case, and Ties.lean proves that the model of the whole function (ModelGC.lean: opAreaGeom, opLengthGeom, structural recursion over the nested geometry) is a fixed point of the switch assembled from the regenerated cases: C03_tie_op_Area_Geom, C03_tie_op_Length_Geom; the line `no case matches: the initial 0 is returned` of that switch is hand-written); "
     "calls into other files are the models' functions: pointInPolygon = property C02's model of within.go with the boxes the code passes. "
-    "Not modelled by the translation: slice capacity (taken = length), aliasing (observed by the harness), a nil *Bounds receiver of bounds.go's Area/Centroid, the GeometryCollection cases of op.Area/op.Length and the default (unsupported geometry error) case of op.Centroid; "
+    "Not modelled by the translation: slice capacity (taken = length), aliasing (observed by the harness), a nil *Bounds receiver of bounds.go's Area/Centroid, the default (unsupported geometry error) case of op.Centroid (observed by the `opfix`/corpus lines only); "
     "in the exact (Rat) rendering a float64 division by a computed zero ends the rendering (Go.Fault.nonFinite; only in Polygon.scaled, proved not to occur for the factors centroidScale returns)")
